@@ -45,6 +45,7 @@ type xTun struct {
 	BridgeA, BridgeB int `json:"-"`
 	A       []int `json:"a"`   // node A: [bridge?, mapping, source step+1, target step+1, cross-node connection?]
 	B       []int `json:"b"`   // node B
+	C       []int `json:"c"`   // node C
 	Rec     []int `json:"rec"` // waiting-tunnel record: [present, node (1 A, 2 B, 3 other), mapping]
 }
 type xOut struct {
@@ -57,13 +58,14 @@ type xOut struct {
 	SetupErr string   `json:"setup_err"`
 }
 
-var clusterA, clusterB *world
+var clusterA, clusterB, clusterC *world
 
 func runXnode(in xIn) (out xOut) {
 	if clusterA == nil {
-		clusterA, clusterB = newCluster()
+		clusterA, clusterB, clusterC = newCluster()
 	}
-	wA, wB := clusterA, clusterB
+	wA, wB, wC := clusterA, clusterB, clusterC
+	nodes := []*world{wA, wB, wC}
 	out.PropOK = true
 	cellSeq++
 	base := fmt.Sprintf("vx%d", cellSeq)
@@ -156,11 +158,11 @@ func runXnode(in xIn) (out xOut) {
 			}
 		}
 		for _, t := range tunID {
-			wA.fx.Session.VerifForgetBridge(t)
-			wB.fx.Session.VerifForgetBridge(t)
+			for _, w := range nodes {
+				w.fx.Session.VerifForgetBridge(t)
+				w.connMgr.CloseTunnel(t)
+			}
 			_ = wA.routing.RemoveWaitingTunnel(context.Background(), t)
-			wA.connMgr.CloseTunnel(t)
-			wB.connMgr.CloseTunnel(t)
 		}
 		for _, o := range order {
 			o.fc.Close()
@@ -212,12 +214,22 @@ func runXnode(in xIn) (out xOut) {
 		}
 		return true, st.SourceNodeID, st.MappingID
 	}
-	// the mapping the tunnel id really belongs to right now: the bridge registered under it (on either node)
-	realMapping := func(tun int) (string, bool) {
-		for _, w := range []*world{wA, wB} {
-			if b := w.fx.Session.VerifBridge(tunID[tun]); b != nil {
-				return nameOf[idOf[b.GetMappingID()]], true
+	// the mapping the tunnel id belongs to for a request arriving on node w: the bridge registered under it on w; else the bridge on
+	// the node its waiting-tunnel record points to (or the record's mapping); else nothing yet (tunnel ids are per node once the
+	// record of an older tunnel has expired)
+	realMapping := func(tun int, w *world) (string, bool) {
+		if b := w.fx.Session.VerifBridge(tunID[tun]); b != nil {
+			return nameOf[idOf[b.GetMappingID()]], true
+		}
+		if ok, node, mid := recordOf(tun); ok {
+			for _, n := range nodes {
+				if n.node == node {
+					if b := n.fx.Session.VerifBridge(tunID[tun]); b != nil {
+						return nameOf[idOf[b.GetMappingID()]], true
+					}
+				}
 			}
+			return nameOf[idOf[mid]], true
 		}
 		return "", false
 	}
@@ -251,6 +263,8 @@ func runXnode(in xIn) (out xOut) {
 			w := wA
 			if st.Node == "B" {
 				w = wB
+			} else if st.Node == "C" {
+				w = wC
 			}
 			fc, c := w.nextConn()
 			o := &xo{step: i, w: w, fc: fc, c: c, tun: st.Tun, done: make(chan error, 1)}
@@ -279,7 +293,7 @@ func runXnode(in xIn) (out xOut) {
 				isL, isT := listenOf[o.named] == st.Who, targetOf[o.named] == st.Who
 				o.ent = (isL && st.Secret == "none") || ((isL || isT) && st.Secret == "right")
 			}
-			tm, exists := realMapping(st.Tun)
+			tm, exists := realMapping(st.Tun, w)
 			entitledNow := o.ent && (!exists || tm == o.named)
 			o.skip = len(fc.output())
 			var parked chan struct{}
@@ -363,7 +377,7 @@ func runXnode(in xIn) (out xOut) {
 	}
 	for k := range tunID {
 		t := xTun{}
-		for ni, w := range []*world{wA, wB} {
+		for ni, w := range nodes {
 			row := []int{0, 0, 0, 0, 0}
 			if b := w.fx.Session.VerifBridge(tunID[k]); b != nil {
 				row[0], row[1] = 1, idOf[b.GetMappingID()]
@@ -382,10 +396,13 @@ func runXnode(in xIn) (out xOut) {
 					}
 				}
 			}
-			if ni == 0 {
+			switch ni {
+			case 0:
 				t.A = row
-			} else {
+			case 1:
 				t.B = row
+			default:
+				t.C = row
 			}
 		}
 		t.Rec = []int{0, 0, 0}
@@ -396,6 +413,8 @@ func runXnode(in xIn) (out xOut) {
 				n, rw = 1, wA
 			} else if node == "node-B" {
 				n, rw = 2, wB
+			} else if node == "node-C" {
+				n, rw = 4, wC
 			}
 			t.Rec = []int{1, n, idOf[mid]}
 			if rw != nil {
@@ -422,7 +441,7 @@ func runXnode(in xIn) (out xOut) {
 			role = 4
 		default:
 			for _, t := range out.Tuns {
-				for _, row := range [][]int{t.A, t.B} {
+				for _, row := range [][]int{t.A, t.B, t.C} {
 					if row[3] == i+1 {
 						role = 2
 					} else if row[2] == i+1 {
@@ -438,7 +457,7 @@ func runXnode(in xIn) (out xOut) {
 	}
 	// bytes: every bridge's source writes; whoever reads them (on any node) must be entitled to THAT tunnel
 	for k := range tunID {
-		for _, w := range []*world{wA, wB} {
+		for _, w := range nodes {
 			b := w.fx.Session.VerifBridge(tunID[k])
 			if b == nil || !b.IsTargetReady() {
 				continue
@@ -476,6 +495,45 @@ func runXnode(in xIn) (out xOut) {
 				if o != src && bytes.Contains(o.fc.output(), marker) {
 					out.Readers = append(out.Readers, fmt.Sprintf("step%d<-tun%d@%s", o.step, k, w.node))
 					checkHolder(o, k, nameOf[idOf[b.GetMappingID()]], "reads the bytes written by the source")
+				}
+			}
+		}
+	}
+	// the other direction: what a FORWARDED requester writes is delivered to the source of some bridge — it must be the bridge
+	// of the tunnel id it named, of the mapping it presented (a dedicated connection that still leads to another node's bridge
+	// would deliver it into somebody else's tunnel)
+	for _, o := range order {
+		if !(o.herr != nil && strings.Contains(o.herr.Error(), "cross-node forwarding")) {
+			continue
+		}
+		marker := []byte(fmt.Sprintf("WRITTEN-BY-STEP-%d-%s", o.step, base))
+		o.fc.feed(marker)
+		deadline := time.Now().Add(600 * time.Millisecond)
+		got := func() *xo {
+			for _, r := range order {
+				if r != o && bytes.Contains(r.fc.output(), marker) {
+					return r
+				}
+			}
+			return nil
+		}
+		for got() == nil && time.Now().Before(deadline) {
+			time.Sleep(300 * time.Microsecond)
+		}
+		r := got()
+		if r == nil {
+			continue
+		}
+		// r is the source of which bridge?
+		for k := range tunID {
+			for _, w := range nodes {
+				b := w.fx.Session.VerifBridge(tunID[k])
+				if b == nil {
+					continue
+				}
+				if s := b.GetSourceTunnelConn(); s != nil && stepOf(s.GetStream()) == r.step+1 {
+					out.Readers = append(out.Readers, fmt.Sprintf("step%d->tun%d@%s", o.step, k, w.node))
+					checkHolder(o, k, nameOf[idOf[b.GetMappingID()]], fmt.Sprintf("has what it writes delivered to the source (step %d) on %s", r.step, w.node))
 				}
 			}
 		}
